@@ -9,6 +9,8 @@ import Masscanned.Spec.Judge
 import Masscanned.Spec.LogGrammar
 import Masscanned.Spec.LogText
 import Masscanned.Spec.JudgeApp
+import Masscanned.Model.SmackCompile
+import Masscanned.Gen.HttpSmack
 open Masscanned
 
 def parseIp (s : String) : Option Ip :=
@@ -284,6 +286,21 @@ def dumpTable (T : SmackTbl) (nrows : Nat) : List String :=
     "match " ++ toString r ++ " " ++ toString (T.cnt r) ++ String.join ((T.ids r).map (fun i => " " ++ toString i))) ++
   ["char_to_symbol" ++ String.join ((List.range 258).map (fun c => " " ++ toString (T.c2s c)))]
 
+partial def compileLoop (stdin : IO.FS.Stream) : IO Unit := do
+  let line ← stdin.getLine
+  if line.isEmpty then return ()
+  IO.println "@@B"
+  match SmackCompile.parseY line with
+  | none => IO.println "@@R bad-op"
+  | some (nc, pats) =>
+    match SmackCompile.compile nc pats with
+    | .error e => IO.println s!"@@R PANIC {e}"
+    | .ok c =>
+      for l in c.dump do IO.println l
+      IO.println "@@R ok"
+  IO.println "@@E"
+  compileLoop stdin
+
 def main (args : List String) : IO UInt32 := do
   let stdin ← IO.getStdin
   let stdout ← IO.getStdout
@@ -294,4 +311,23 @@ def main (args : List String) : IO UInt32 := do
     let ls := if which == "http" then dumpTable httpTbl Gen.HttpSmack.nrows else dumpTable protoTbl Gen.ProtoSmack.nrows
     for l in ls do IO.println l
     return 0
-  | _ => IO.eprintln "usage: mdriver model"; return 2
+  | ["compile-check"] =>
+    -- the hand-written model of `Smack::compile`, run on the registered patterns, against the tables dumped from the code
+    let mut bad := 0
+    for (name, nc, pats, T, nrows, symc) in
+        [("proto", Gen.ProtoSmack.nocase, Gen.ProtoSmack.patterns, Gen.ProtoSmack.tbl, Gen.ProtoSmack.nrows, Gen.ProtoSmack.symbolCount),
+         ("http", Gen.HttpSmack.nocase, Gen.HttpSmack.patterns, Gen.HttpSmack.tbl, Gen.HttpSmack.nrows, Gen.HttpSmack.symbolCount)] do
+      match SmackCompile.compile nc (SmackCompile.ofGen pats) with
+      | .error e => IO.println s!"{name} error {e}"; bad := bad + 1
+      | .ok c =>
+        let d := c.diff T nrows symc
+        if d.isEmpty then IO.println s!"{name} ok rows={c.stateCount} symbols={c.symbolCount} match_limit={c.matchLimit}"
+        else
+          IO.println s!"{name} differs {d.length}: {d.take 5}"
+          bad := bad + 1
+    return (if bad == 0 then 0 else 1)
+  | ["compile"] =>
+    -- `Y` ops: compile the given pattern set with the model and print the implementation's dump format
+    compileLoop stdin
+    return 0
+  | _ => IO.eprintln "usage: mdriver model | judge Cxx | dump proto|http | compile-check | compile"; return 2
